@@ -25,7 +25,7 @@ Proof.
   destruct path as [|t path']; [cbn in Hw; discriminate|].
   split.
   - rewrite help_word_dropped by exact Hh. unfold help_target. rewrite Hh.
-    rewrite (leading_all _ Hl), Hw. cbn [bind]. rewrite Hd. cbn [pick_default bind]. now rewrite Hp1.
+    rewrite (leading_all _ Hl), Hw. cbn [bind]. rewrite Hd. cbn [help_pick_default bind]. unfold help_lenient. now rewrite Hp1.
   - unfold help_target. cbn [app]. rewrite Hh. change (t :: path' ++ o :: r) with ((t :: path') ++ o :: r).
-    rewrite (leading_cut _ o r Hl (option_is_stopper _ Ho)), Hw. cbn [bind]. rewrite Hd. cbn [pick_default bind]. now rewrite Hp2.
+    rewrite (leading_cut _ o r Hl (option_is_stopper _ Ho)), Hw. cbn [bind]. rewrite Hd. cbn [help_pick_default bind]. unfold help_lenient. now rewrite Hp2.
 Qed.
